@@ -189,23 +189,25 @@ func (sp SinePacer) Pace(elapsedTime time.Duration, elapsedHits uint64) (time.Du
 	}
 	// Re-arranging our hits equation to provide a duration given the number of
 	// requests sent is non-trivial, so we must solve for the duration numerically.
-	// math.Round() added here because we have to coerce to int64 nanoseconds
-	// at some point and it corrects a bunch of off-by-one problems.
-	nsPerHit := math.Round(1 / sp.hitsPerNs(elapsedTime))
-	hitsToWait := float64(elapsedHits+1) - expectedHits
-	nextHitIn := time.Duration(nsPerHit * hitsToWait)
-
-	// If we can't converge to an error of <1e-3 within 5 iterations, bail.
-	// This rarely even loops for any large Period if hitsToWait is small.
-	for i := 0; i < 5; i++ {
-		hitsAtGuess := sp.hits(elapsedTime + nextHitIn)
-		err := float64(elapsedHits+1) - hitsAtGuess
-		if math.Abs(err) < 1e-3 {
-			return nextHitIn, false
-		}
-		nextHitIn = time.Duration(float64(nextHitIn) / (hitsAtGuess - float64(elapsedHits)))
+	// The hits equation grows strictly with time because Amp < Mean, so the time
+	// at which the next hit is due is bracketed by the slowest possible rate and
+	// found by bisection, which converges for any amplitude.
+	target := float64(elapsedHits + 1)
+	slowest := sp.Mean.hitsPerNs() - math.Abs(sp.Amp.hitsPerNs())
+	bound := math.Ceil((target-expectedHits)/slowest) + 1
+	if !(slowest > 0) || bound >= float64(math.MaxInt64)-float64(elapsedTime) {
+		// We would overflow the wait if we continued, so stop the attack.
+		return 0, true
 	}
-	return nextHitIn, false
+	lo, hi := time.Duration(0), time.Duration(bound)
+	for lo < hi {
+		if mid := lo + (hi-lo)/2; sp.hits(elapsedTime+mid) < target {
+			lo = mid + 1
+		} else {
+			hi = mid
+		}
+	}
+	return lo, false
 }
 
 // Rate returns a SinePacer's instantaneous hit rate (i.e. requests per second)
